@@ -19,6 +19,25 @@ type Case struct {
 	Repl     string
 	Mask     rune
 	Shape    string // how the case was built (for classification)
+	Stages   []int  `json:",omitempty"` // BuildFailureLinks is also called after inserting this many patterns (incremental use)
+}
+
+// BuildStaged inserts the patterns in order, calling build() after the stage points and once at the end.
+func BuildStaged(c Case, insert func(string), build func()) {
+	stage := map[int]int{}
+	for _, k := range c.Stages {
+		stage[k]++
+	}
+	for i, p := range c.Patterns {
+		insert(p)
+		for n := stage[i+1]; n > 0 && i+1 < len(c.Patterns); n-- {
+			build()
+		}
+	}
+	build()
+	if stage[len(c.Patterns)] > 0 {
+		build() // building twice must be harmless
+	}
 }
 
 type Occ struct{ Start, Stop int }
@@ -237,6 +256,9 @@ func Gen(t *rapid.T) Case {
 			k = str(t, alpha, 0, 3, "krand")
 		}
 		c.Keys = append(c.Keys, k)
+	}
+	if len(c.Patterns) > 1 && rapid.IntRange(0, 2).Draw(t, "staged") == 0 {
+		c.Stages = rapid.SliceOfN(rapid.IntRange(1, len(c.Patterns)), 1, 2).Draw(t, "stages")
 	}
 	c.Repl = rapid.OneOf(rapid.Just(""), rapid.Just("*"), rapid.Custom(func(t *rapid.T) string { return str(t, alpha, 0, 3, "repl") })).Draw(t, "repl")
 	c.Mask = rapid.SampledFrom([]rune{'*', 0xe9, 0x65e5, 0x1f600, 'a', 0xfffd}).Draw(t, "mask")
